@@ -51,17 +51,20 @@ def part_scan(ctx, rnd):
     ctx.extra["scan_scenarios_emitted"] = len(scns)
     if not scns:
         raise vlib.InfraError("scan: no scenario emitted")
-    cap = 12000 if ctx.thorough else 2500
+    cap = 20000 if ctx.thorough else 1500
     if len(scns) > cap:
         scns.sort(key=lambda s: s["id"])
         rnd.shuffle(scns)
         scns = scns[:cap]
     # random populations beyond the model's bounds (up to 200 collections, heavy ties, page sizes
     # below and above the tie multiplicity, server-side page cap with pageSize 0)
-    nrand = 1500 if ctx.thorough else 200
+    nrand = 1500 if ctx.thorough else 120
     base = 10 ** 7
     for i in range(nrand):
-        n = rnd.choice([0, 1, 2, 3, 5, 8, 13, 30, 60, 120, 200]) if i % 3 else rnd.randint(0, 200)
+        if ctx.thorough or i % 12 == 0:
+            n = rnd.choice([0, 1, 2, 3, 5, 8, 13, 30, 60, 120, 200]) if i % 3 else rnd.randint(0, 200)
+        else:   # quick tier: long scans (one page request per collection) are kept few, judging them is slow
+            n = rnd.choice([0, 1, 2, 3, 5, 8, 13, 30, 60])
         tmax = rnd.choice([1, 2, 3, max(1, n // 10), max(1, n // 3), max(1, n)])
         lim = rnd.choice([1, 2, 3, 4, 5, 7, 10, 25, 100, 1000])
         s = {"id": base + i, "mode": "random", "rseed": ctx.seed * 1000003 + i, "n": n, "tmax": tmax,
@@ -116,12 +119,12 @@ def part_framing(ctx, rnd):
     # the writer-side scenarios each build a keepstore router and make three HTTP requests: sample them
     scns.sort(key=lambda s: s["id"])
     rnd.shuffle(scns)
-    wr = [s for s in scns if s["mode"] == "write"][:2500 if ctx.thorough else 1000]
+    wr = [s for s in scns if s["mode"] == "write"][:2500 if ctx.thorough else 300]
     rd = [s for s in scns if s["mode"] == "read"][:12000]
     scns = rd + wr
     # beyond the model's bounds: long responses, every kind of cut position
     base = 2 * 10 ** 7
-    nrand = 3000 if ctx.thorough else 400
+    nrand = 3000 if ctx.thorough else 300
     for i in range(nrand):
         n = rnd.choice([0, 1, 2, 3, 4, 7, 20, 60])
         shape = [[rnd.randint(1, 9), rnd.choice([10, 19])] for _ in range(n)]
@@ -139,7 +142,7 @@ def part_framing(ctx, rnd):
         else:
             cut = rnd.randint(0, total - 1)
         scns.append({"id": base + i, "mode": "read", "shape": shape, "cut": cut})
-    nw = 300 if ctx.thorough else 60
+    nw = 300 if ctx.thorough else 40
     for i in range(nw):
         nv = rnd.randint(1, 4)
         vols = [[[rnd.randint(1, 4), 19] for _ in range(rnd.randint(0, 5))] for _ in range(nv)]
@@ -204,7 +207,7 @@ def part_sweep(ctx, rnd):
         s["bufs"] = [1, 0, 2, 1000][(s["id"] // 4 + ctx.seed) % 4]
     # beyond the model's bounds: more servers and pages, ties (more page requests), any page size
     base = 3 * 10 ** 7
-    nrand = 1500 if ctx.thorough else 300
+    nrand = 1500 if ctx.thorough else 200
     for i in range(nrand):
         S = rnd.randint(1, 6)
         pages = rnd.randint(0, 6)
